@@ -18,6 +18,19 @@ unconfirmed-parent info (the anchor that CPFPs a force close; parent below / ins
 next to required outputs and wallet top-ups, and the fee-rate clauses are judged on the ACTUAL tx handed
 to the wallet (fee = inputs - outputs over the sweep tx's own weight): TxRateLeCfgMax, TxPaysOfferedRate.
 
+Aux sweeper (custom channels): a request may get an extra output (xout, part of the weight of the tx that is
+built and of its required outputs) and an extra budget (xbudget); the ceiling is budget over THAT size.
+Estimator / deadline domain: ending rates / configured maxima below the relay fee, conf targets on both sides of
+1008 (the relay fee as the starting rate), far-deadline publisher grid (SweepFeePubMCFar.cfg).
+
+Part "SweepLife" (spec/SweepFee/SweepLife*.tla, harness/sweep/c18_life_test.go): the RETRY HISTORY of the
+UtxoSweeper across blocks - rounds, publish, bump, TxFailed with / without a retry rate, TxUnknownSpend of a subset,
+re-grouping - on a real UtxoSweeper + BudgetAggregator + TxPublisher; per input the state and the starting rate the
+sweeper keeps are compared with the model after every handled result (ConformLife) and the rate offered for an input
+must not decrease across its requests (LifeNoDecrease, LifeStartNoDecrease); keys sweeplife:<invariant>:<line>.
+Its two deviations (ForgetOnZero, StrandFilter) are decided by the directed l_d_* schedules:
+deviating -> ck.violation("retry-rate-forgotten:<schedule>" / "input-stranded-by-start-rate:<schedule>").
+
   (a) exhaustive TLC: fee function grids (all walks of Increment/IncreaseFeeRate with skipping,
       repeating, increasing conf targets), publisher grids (budgets around the fee thresholds of a
       weight below/above 2000 wu, MaxFeeRate below/above the budget rate, change above/below dust,
@@ -42,7 +55,7 @@ from ..core import Inconclusive
 SPEC = os.path.join(core.VERIF, "spec", "SweepFee")
 DIRECTED = os.path.join(SPEC, "directed")
 LEVEL = "model_checking"
-HARNESS = ["sweep/c18_test.go"]
+HARNESS = ["sweep/c18_test.go", "sweep/c18_life_test.go"]
 WORKERS = int(os.environ.get("VERIF_TLC_WORKERS", "4"))
 
 TLA = lambda b: "TRUE" if b else "FALSE"
@@ -84,7 +97,7 @@ def consts(dec):
 
 
 def brief(r):
-    keys = ("a", "cfgvb", "maxrate", "ct", "sopt", "est", "relay", "budget", "weight", "totalin", "reqout", "dust", "deadline",
+    keys = ("a", "ids", "states", "starts", "lbudgets", "xout", "xbudget", "cfgvb", "maxrate", "ct", "sopt", "est", "relay", "budget", "weight", "totalin", "reqout", "dust", "deadline",
             "height", "maxallowed", "start", "end", "width", "pos", "cur", "delta", "inc", "err", "rate", "fee",
             "change", "ans", "event", "budgets", "deadlines", "parents")
     return {k: r.get(k) for k in keys
@@ -92,7 +105,14 @@ def brief(r):
                 and not (k == "weight" and r.get(k) == 1)) or k == "a"}
 
 
+def next_line(v):
+    """the Next* invariants speak about the line that is about to be taken"""
+    if "Next" in (v["invariant"] or "") and v["line"] is not None:
+        v["line"] += 1
+
+
 def report(ck, v, recs, what, dec):
+    next_line(v)
     a, b = core.slice_trace(recs, v["line"] or 1, is_reset)
     one = os.path.join(ck.out, "failing_trace.ndjson")
     core.write_ndjson(one, recs[a:b])
@@ -108,18 +128,30 @@ def report(ck, v, recs, what, dec):
 def model_checking(ck, thorough, dec):
     strict = {"RoundCeil": "FALSE", "ClampStart": "TRUE"}
     code = consts(dec)
-    quickpub = {} if thorough else {"Budgets": "{1000, 2000, 2003}", "Sopts": "{0, 600}"}
+    # measured: the whole grid of SweepFeePubMC.cfg (8 input sets x 5 budgets x 3 starts x 4 estimator answers, with a third
+    # configured maximum) took 8 min 46 s with 4 workers on an idle machine; the tiers take sub-grids of it
+    quickpub = ({"Budgets": "{1000, 2000, 2002, 2003}", "Ests": "{0, 260, 9000}", "InSets": "{1, 2, 3, 4, 7}"} if thorough
+                else {"Budgets": "{1000, 2000, 2003}", "Sopts": "{0, 600}", "Ests": "{0, 260, 9000}",
+                      "InSets": "{1, 3, 7, 9}"})
     runs = [("SweepFeeMC.cfg", "fee function grid 12 ends x 8 conf targets x 4 starts x 5 estimator answers, all walks, "
                                "repaired model", strict, {}, 900)]
     runs.append(("SweepFeePubMC.cfg", "publisher grid (requests built by SweepReq from configured maxima 2 / 400 sat/vb; 2 weights, "
-                                      "budgets around the thresholds, 6 input sets incl. two with unconfirmed-parent info, all "
-                                      "mempool/publish answers, all block patterns, retries), repaired model",
+                                      "budgets around the thresholds, input sets incl. two with unconfirmed-parent info and two "
+                                      "with an aux extra output / extra budget, all mempool/publish answers, all block patterns, "
+                                      "retries, third-party spend / confirmation at any block), repaired model",
                  strict, quickpub, 1500))
     if code != strict:
         runs.append(("SweepFeeMC.cfg", "fee function grid, model with the deviations the code has (invariants hold "
                                        "outside the named triggers)", code, {}, 900))
         runs.append(("SweepFeePubMC.cfg", "publisher grid, model with the deviations the code has (invariants hold "
                                           "outside the named triggers)", code, quickpub, 1500))
+    if thorough:
+        runs.append(("SweepFeePubMC.cfg", "publisher grid, input sets of a node with an aux sweeper (extra output 1000 / 330 sat, extra "
+                                          "budget 3 / 0; change above / below dust), repaired model", strict,
+                     {"Budgets": "{1000, 2002, 2003}", "Sopts": "{0, 600}", "Ests": "{0, 260, 9000}", "InSets": "{8, 9}"}, 1500))
+    runs.append(("SweepFeePubMCFar.cfg", "publisher grid with a deadline 1009 blocks away (the relay fee as the starting rate; "
+                                         "configured maxima 1 / 2 / 400 sat/vb = below / above the relay fee; plain and aux "
+                                         "input set; heights at both ends), repaired model", strict, {}, 900))
     if thorough:
         runs.append(("SweepFeeMCWide.cfg", "fee function, conf targets 1007..1011 (width up to 1010), every position, "
                                            "repaired model", strict, {}, 1800))
@@ -259,6 +291,8 @@ def stats(ck, recs):
                                          rate_ties=0, budget_rate_ties=0, top_ups=0, required_outputs=0,
                                          dust_absorbed=0, max_width=0, max_rate=0, regrouped_with_prev_rates=0,
                                          regrouped_largest_not_last=0, built_by_real_sweeper=0,
+                                         aux_extra_output=0, aux_extra_budget=0, relay_above_ceiling=0,
+                                         far_deadline_starts=0, start_capped_at_end=0,
                                          cfg_max_binding=0, unconf_parent=0, unconf_parent_below_end=0,
                                          unconf_parent_above_end=0, unconf_parent_txs_published=0))
     withparent = False
@@ -266,7 +300,10 @@ def stats(ck, recs):
         a = r.get("a")
         if a in ("Reset", "New"):
             withparent = False
+        if a in ("New", "Init") and r.get("ct", 0) >= 1008:
+            st["far_deadline_starts"] += 1
         if a in ("New", "Init") and r.get("live") == 1:
+            st["start_capped_at_end"] += 1 if r["start"] == r["end"] and r["width"] > 0 else 0
             st["fee_functions"] += 1
             st["max_width"] = max(st["max_width"], r["width"])
             st["max_rate"] = max(st["max_rate"], r["end"])
@@ -282,6 +319,9 @@ def stats(ck, recs):
             st["regrouped_largest_not_last"] += 1 if nz and nz[-1] != max(nz) else 0
             st["top_ups"] += 1 if r.get("wallet") else 0
             st["built_by_real_sweeper"] += 1 if r.get("cfgvb") else 0
+            st["aux_extra_output"] += 1 if r.get("xout") else 0
+            st["aux_extra_budget"] += 1 if r.get("xbudget") else 0
+            st["relay_above_ceiling"] += 1 if r.get("relay", 0) > min(r.get("maxrate", 0), r["budget"] * 1000 // r["weight"]) else 0
             st["cfg_max_binding"] += 1 if 250 * r.get("cfgvb", 0) < r["budget"] * 1000 // r["weight"] else 0
             withparent = bool(r.get("parents"))
             if withparent:
@@ -301,6 +341,193 @@ def stats(ck, recs):
                 st["dust_absorbed"] += 1
 
 
+# ---------------------------------------------------------------------------------------------- SweepLife
+# deviation -> (spec constant, violation key prefix, what); TRUE = the code deviates, FALSE = repaired
+LIFE_DEVIATIONS = {
+    "forget": ("ForgetOnZero", "retry-rate-forgotten",
+               "UtxoSweeper retry history: a TxFailed bump result WITHOUT a retry rate (FeeRate 0: zero fee rate delta / tx "
+               "without output / aux error) makes markInputsPublishFailed store StartingFeeRate=Some(0) on every input of the "
+               "set: the rate already reached is forgotten, the next request starts from the estimator and the rate offered "
+               "for the input decreases across blocks"),
+    "strand": ("StrandFilter", "input-stranded-by-start-rate",
+               "UtxoSweeper retry history: after a third-party spend of part of a batched sweep the rate handed back (computed "
+               "for the old, larger set) becomes the remaining input's StartingFeeRate; its OWN budget cannot pay that rate "
+               "over its own weight, BudgetAggregator.filterInputs skips it in every round: it stays PublishFailed, is never "
+               "offered again and never reaches its ceiling by the deadline"),
+}
+
+
+def life_consts(dec, ldec):
+    c = consts(dec)
+    c.update({"ForgetOnZero": TLA(ldec["forget"]), "StrandFilter": TLA(ldec["strand"])})
+    return c
+
+
+def life_schedules(ck, thorough):
+    """TLC-generated retry histories (model of the code as known: both deviations) + the directed l_* ones."""
+    files = ck.generate(SPEC, "SweepLifeGen", "SweepLifeGen.cfg", 400 if thorough else 90, 64,
+                        constants={"MaxLen": 60}, name="gen_life", timeout=900)
+    d = os.path.join(ck.out, "life_schedules")
+    os.makedirs(d, exist_ok=True)
+    for i, f in enumerate(files):
+        shutil.copy(f, os.path.join(d, "l_%04d.ndjson" % i))
+    for n in sorted(os.listdir(DIRECTED)):
+        if n.startswith("l_") and n.endswith(".ndjson"):
+            shutil.copy(os.path.join(DIRECTED, n), os.path.join(d, "l_directed_" + n[2:]))
+    return d
+
+
+def life_name(tr):
+    return os.path.basename(tr[0].get("file", ""))
+
+
+def life_report(ck, v, recs, what, c):
+    next_line(v)
+    a, b = core.slice_trace(recs, v["line"] or 1, is_reset)
+    one = os.path.join(ck.out, "failing_life_trace.ndjson")
+    core.write_ndjson(one, recs[a:b])
+    bad = recs[min((v["line"] or 1) - 1, len(recs) - 1)]
+    inv = (v["invariant"] or "rejected").replace("invariant ", "").replace("property ", "")
+    ck.violation("sweeplife:%s:%s" % (inv, bad.get("a")),
+                 "real UtxoSweeper / TxPublisher deviate from spec/SweepFee/SweepLife in %s (%s, constants %s) at line %s "
+                 "of %s: %s" % (what, v["invariant"], c, v["line"], recs[a].get("file"), json.dumps(brief(bad))[:700]),
+                 files={"trace.ndjson": one}, text=v["cex"])
+
+
+def life_decide(ck, life, dec):
+    """which retry-history model does the code follow: {forget: bool, strand: bool} (True = the code deviates)."""
+    ldec = {}
+    traces = {life_name(tr): tr for tr in split_traces(life)}
+    for dev, (const, key, what) in LIFE_DEVIATIONS.items():
+        mine = {n: tr for n, tr in traces.items() if n.startswith("l_directed_d_" + dev)}
+        if not mine:
+            raise Inconclusive("no directed schedule for retry-history deviation %s" % dev)
+        present = False
+        for name, recs in sorted(mine.items()):
+            p = os.path.join(ck.out, "directed_%s" % name)
+            core.write_ndjson(p, recs)
+            rep = {"forget": False, "strand": False}
+            c = life_consts(dec, rep)                                   # repaired model, full property
+            v = ck.validate(SPEC, "SweepLifeTrace", "SweepLifeTrace.cfg", p, constants=c, name="ldir_%s_rep" % name[:-7])
+            if v["ok"]:
+                continue
+            c2 = life_consts(dec, dict(rep, **{dev: True}))             # the deviating model, conformance only
+            v2 = ck.validate(SPEC, "SweepLifeTrace", "SweepLifeTraceConform.cfg", p, constants=c2,
+                             name="ldir_%s_dev" % name[:-7])
+            if not v2["ok"]:
+                life_report(ck, v2, recs, "directed schedule %s (neither the repaired nor the deviating model)" % name, c2)
+                continue
+            present = True
+            seen = [brief(r) for r in recs if r.get("a") in ("LReq", "NoReq", "Handle")][:10]
+            ck.violation("%s:%s" % (key, name[len("l_directed_"):-7]),
+                         "%s. Directed schedule %s on the real code follows the deviating model (%s=TRUE), the repaired "
+                         "model rejects it (%s at line %s). Observed: %s" % (
+                             what, name, const, v["invariant"], v["line"], json.dumps(seen)[:1200]),
+                         files={"trace.ndjson": p,
+                                "schedule.ndjson": os.path.join(DIRECTED, "l_" + name[len("l_directed_"):])},
+                         text=v["cex"])
+        ldec[dev] = present
+    ck.cov["deviations_present"].update({"life_" + k: v for k, v in ldec.items()})
+    ck.cov["traces_validated_against_impl"] += len(LIFE_DEVIATIONS)
+    return ldec
+
+
+def life_model_checking(ck, thorough, dec, ldec):
+    strict = life_consts({"ceil": False, "start": False}, {"forget": False, "strand": False})
+    code = life_consts(dec, ldec)
+    wide = {"LBSel": "{1, 2, 3, 4}", "LEsts": "{300, 1000}", "LConf0": 5} if thorough else {}
+    what = ("retry history: 2 inputs (budget pairs: second ceiling below / far below the pair's rates, equal, first barely "
+            "payable), all mempool/publish answers, all block patterns to deadline+1, third-party spend of any subset at any "
+            "block, results with / without a retry rate")
+    if thorough or code == strict:
+        ck.model_check(SPEC, "SweepLifeMC", "SweepLifeMC.cfg", what + ", repaired model", constants=dict(strict, **wide),
+                       workers=WORKERS, name="mcl0", timeout=1500)
+    if code != strict:
+        ck.model_check(SPEC, "SweepLifeMC", "SweepLifeMC.cfg", what + ", model with the deviations the code has (invariants "
+                       "hold outside the named triggers)", constants=dict(code, **wide), workers=WORKERS, name="mcl1",
+                       timeout=1500)
+    for cfg, inv in (("SweepLifeMCQuirkForget.cfg", "LifeNoDecreaseAll"), ("SweepLifeMCQuirkStrand.cfg", "LifeNotStrandedAll")):
+        r = ck.model_check(SPEC, "SweepLifeMC", cfg, "deviating retry-history model, unguarded %s (expected to fail)" % inv,
+                           must_hold=False, workers=WORKERS, name="mclq_" + inv, timeout=600)
+        if r.violation != "invariant " + inv:
+            raise Inconclusive("the deviating retry-history model does not violate %s (got %s)" % (inv, r.violation))
+    ck.notes.append("model level (SweepLife): ForgetOnZero=TRUE violates LifeNoDecrease, StrandFilter=TRUE violates "
+                    "LifeNotStranded (counterexamples found by TLC); both repaired -> all invariants hold")
+
+
+def life_controls(ck, recs, c):
+    done = []
+    # (1) the sweeper forgets / alters the rate it keeps for a waiting input
+    cands = [i for i, r in enumerate(recs) if r.get("a") == "Handle" and r.get("event") in ("Failed", "UnknownSpend")
+             and any(s > 0 and st == "failed" for s, st in zip(r["starts"], r["states"]))]
+    # (2) a request that leaves one of its inputs out
+    cands2 = [i for i, r in enumerate(recs) if r.get("a") == "LReq" and len(r.get("ids", [])) >= 2]
+    for tag, cs in (("starts", cands), ("ids", cands2)):
+        if not cs:
+            continue
+        i = cs[len(cs) // 2]
+        a, b = core.slice_trace(recs, i + 1, is_reset)
+        bad = copy.deepcopy(recs[a:b])
+        if tag == "starts":
+            k = next(k for k, (s, st) in enumerate(zip(bad[i - a]["starts"], bad[i - a]["states"])) if s > 0 and st == "failed")
+            bad[i - a]["starts"][k] = 0
+            what = "starting rate of a failed input set to 0 on a Handle line (line %d)" % (i + 1)
+        else:
+            bad[i - a]["ids"] = bad[i - a]["ids"][:-1]
+            what = "one input dropped from the ids of an LReq line (line %d)" % (i + 1)
+        p = os.path.join(ck.out, "control_life_%s.ndjson" % tag)
+        core.write_ndjson(p, bad)
+        v = ck.validate(SPEC, "SweepLifeTrace", "SweepLifeTrace.cfg", p, constants=c, name="control_life_" + tag)
+        if v["ok"]:
+            raise Inconclusive("negative control accepted (%s): retry-history validation is not binding" % what)
+        done.append(dict(mutation=what, rejected_by=v["invariant"], at_line=v["line"]))
+    if len(done) < 2:
+        raise Inconclusive("not enough material for the retry-history negative controls")
+    ck.cov.setdefault("negative_controls", []).extend(done)
+
+
+def life_validate(ck, life, dec, ldec):
+    c = life_consts(dec, ldec)
+    recs = [r for tr in split_traces(life) if not life_name(tr).startswith("l_directed_d_") for r in tr]
+    st = ck.cov.setdefault("stats", {})
+    for k in ("life_histories", "life_requests", "life_results_handled", "life_failed_with_rate", "life_failed_without_rate",
+              "life_unknown_spends", "life_resweeps_after_spend", "life_published", "life_rounds_without_request"):
+        st.setdefault(k, 0)
+    prev = None
+    for r in recs:
+        a = r.get("a")
+        st["life_histories"] += 1 if a == "Offer" else 0
+        st["life_requests"] += 1 if a == "LReq" else 0
+        st["life_rounds_without_request"] += 1 if a == "NoReq" else 0
+        st["life_published"] += 1 if a == "Pub" and r.get("ans") == "ok" else 0
+        if a == "Handle":
+            st["life_results_handled"] += 1
+            ev = r.get("event")
+            st["life_unknown_spends"] += 1 if ev == "UnknownSpend" else 0
+            st["life_failed_with_rate"] += 1 if ev == "Failed" and r.get("rate", 0) > 0 else 0
+            st["life_failed_without_rate"] += 1 if ev == "Failed" and r.get("rate", 0) == 0 else 0
+        if a == "LReq" and prev is not None and prev.get("a") == "Handle" and prev.get("event") == "UnknownSpend":
+            st["life_resweeps_after_spend"] += 1
+        prev = r
+    nviol = 0
+    for k, batch in enumerate(core.split_batches(recs, is_reset, max_bytes=12_000_000)):
+        p = os.path.join(ck.out, "life_%d.ndjson" % k)
+        core.write_ndjson(p, batch)
+        v = ck.validate(SPEC, "SweepLifeTrace", "SweepLifeTrace.cfg", p, constants=c, name="val_life_%d" % k, timeout=1500)
+        if v["ok"]:
+            ck.cov["traces_validated_against_impl"] += sum(1 for r in batch if is_reset(r))
+        else:
+            nviol += 1
+            life_report(ck, v, batch, "retry histories", c)
+    if nviol == 0:
+        life_controls(ck, recs, c)
+        if st["life_unknown_spends"] == 0 or st["life_resweeps_after_spend"] == 0 or st["life_failed_with_rate"] == 0:
+            raise Inconclusive("the retry histories exercised no unknown spend / re-sweep / failure with a rate: %s" % st)
+    for tr in split_traces(recs)[:2]:
+        ck.cov["samples"].append([brief(r) for r in tr[1:7]])
+    return nviol
+
+
 def run(ck):
     thorough = ck.tier == "thorough"
     fast = bool(os.environ.get("VERIF_C18_FAST"))
@@ -318,17 +545,21 @@ def run(ck):
     os.makedirs(sched, exist_ok=True)
     for i, f in enumerate(f1 + f2):
         shutil.copy(f, os.path.join(sched, "b_%04d_%s.ndjson" % (i, "ff" if f in f1 else "pub")))
-    dnames = sorted(n[:-7] for n in os.listdir(DIRECTED) if n.endswith(".ndjson"))   # d_*: decide(); x_*: as generated
+    dnames = sorted(n[:-7] for n in os.listdir(DIRECTED)
+                    if n.endswith(".ndjson") and not n.startswith("l_"))       # d_*: decide(); x_*: as generated
+    lsched = life_schedules(ck, thorough)
     for n in dnames:
         shutil.copy(os.path.join(DIRECTED, n + ".ndjson"), os.path.join(sched, "b_directed_%s.ndjson" % n))
 
     # ------------------------------------------------------------ execution on the real code
-    res = ck.go_test("./sweep/", "^TestVerifC18(Replay|Free)$", HARNESS,
+    res = ck.go_test("./sweep/", "^TestVerifC18(Replay|Free|Life)$", HARNESS,
                      env={"VERIF_SCHED": sched, "VERIF_NFF": 1500 if thorough else 250,
-                          "VERIF_NPUB": 1200 if thorough else 220},
+                          "VERIF_NPUB": 1200 if thorough else 220,
+                          "VERIF_LIFE_SCHED": lsched, "VERIF_NLIFE": 600 if thorough else 150},
                      name="exec", timeout=1500, extra_overlay=extra)
     tpath, fpath = os.path.join(res["dir"], "trace.ndjson"), os.path.join(res["dir"], "free.ndjson")
-    if res["rc"] != 0 or not os.path.exists(tpath) or not os.path.exists(fpath):
+    lpath = os.path.join(res["dir"], "life.ndjson")
+    if res["rc"] != 0 or not os.path.exists(tpath) or not os.path.exists(fpath) or not os.path.exists(lpath):
         raise Inconclusive("executor failed:\n" + res["out"][-4000:])
     replay, free = core.read_ndjson(tpath), core.read_ndjson(fpath)
     directed, dirx, generated = {}, [], []
@@ -340,15 +571,19 @@ def run(ck):
             dirx += tr                  # scenario witnesses of each part: validated first
         else:
             generated += tr
-    ck.cov["evaluations"] += sum(1 for r in replay + free if not is_reset(r))
+    life = core.read_ndjson(lpath)
+    ck.cov["evaluations"] += sum(1 for r in replay + free + life if not is_reset(r))
 
     # ------------------------------------------------------------ (b) which model does the code follow
     dec = decide(ck, directed)
     core.log("  [c18] deviations present in the code: %s" % dec)
+    ldec = life_decide(ck, life, dec)
+    core.log("  [c18] retry-history deviations present in the code: %s" % ldec)
 
     # ------------------------------------------------------------ (a) model checking
     if not (fast and os.environ.get("VERIF_MUTATION")):
         model_checking(ck, thorough, dec)
+        life_model_checking(ck, thorough, dec, ldec)
     else:
         ck.notes.append("VERIF_C18_FAST: model checking skipped in this mutation-control run")
         ck.cov["states"] = ck.cov["transitions"] = 1
@@ -370,7 +605,12 @@ def run(ck):
                 report(ck, v, batch, "%s behaviours" % tag, dec)
         if nviol == 0 and tag != "directed":
             controls(ck, recs, dec, tag)
+    nviol += life_validate(ck, life, dec, ldec)
     distinct = set()
+    for tr in split_traces(life):
+        distinct.add(core.sha(str([(r.get("a"), r.get("height"), r.get("ans"), r.get("cur"), r.get("event"), r.get("rate"),
+                                   str(r.get("ids")), str(r.get("starts")), str(r.get("lbudgets")), r.get("est"))
+                                  for r in tr[1:]])))
     for tr in split_traces(dirx) + split_traces(generated) + split_traces(free):
         distinct.add(core.sha(str([(r.get("a"), r.get("ct"), r.get("height"), r.get("ans"), r.get("maxrate"), r.get("sopt"),
                                    r.get("est"), r.get("budget"), r.get("weight"), r.get("totalin"), r.get("cur"),
@@ -386,7 +626,12 @@ def run(ck):
                       "inputs through the real UtxoSweeper.sweepPendingInputs/sweep, BudgetAggregator/BudgetInputSet with "
                       "wallet top-ups, required outputs and anchors carrying unconfirmed-parent info; configured maxima "
                       "10..7600 sat/vb); distinct = distinct "
-                      "(action, argument, answer, resulting rate) sequences; every case has >= 1 call on the real code")
+                      "(action, argument, answer, resulting rate) sequences; every case has >= 1 call on the real code; "
+                      "requests of a node with an aux sweeper (extra output 330..5000 sat, extra budget) and relay fees above "
+                      "the ceiling / conf targets >= 1008 are part of both; a retry history (SweepLife) = 2..4 inputs of one "
+                      "deadline on a real UtxoSweeper + TxPublisher over all its requests (rounds, bumps, failures with / "
+                      "without a rate, one third-party spend), generated by TLC -simulate from SweepLifeGen or by the seeded "
+                      "driver")
     ck.cov["trusted_base"] = ["TLC 1.8.0", "CommunityModules Json",
                               "executor projection (fee function fields, tx inputs/outputs/values, dust limit per output "
                               "via lnwallet.DustLimitForSize, error class via errors.Is)",
@@ -397,7 +642,12 @@ def run(ck):
                               "(storeInitialRecord); per-input budgets/deadlines/previous rates are field copies of the set",
                               "weight of a sweep tx = sweep.calcSweepTxWeight (the estimator's upper bound the code itself uses; "
                               "mock signatures make the serialized size meaningless)",
-                              "float64 analysis: error < 1e-5 for rates <= 2e6 sat/kw, so only exact .5 ties are ambiguous"]
+                              "float64 analysis: error < 1e-5 for rates <= 2e6 sat/kw, so only exact .5 ties are ambiguous",
+                              "executor glue (retry history): the sweeper's collector round and handleBumpEvent are called "
+                              "directly with the BumpResult the real TxPublisher delivered (no goroutines); a third-party spend "
+                              "is monitorRecord.spentInputs + TxPublisher.handleUnknownSpent; the sweeper's store is a stub; "
+                              "per-input state / StartingFeeRate on Handle lines are field copies of UtxoSweeper.inputs; the "
+                              "aux sweeper is a stub that adds one p2tr output when an input carries a resolution blob"]
     ck.assumptions += [
         "mock wallet/signer/estimator: mempool and publish answers are scripted environment; signatures are not checked",
         "a caller-supplied StartingFeeRate is >= the relay fee (the fee function does not enforce a floor on it; "
@@ -407,7 +657,8 @@ def run(ck):
         "'fee rate' of a published tx is the rate it was built at; a sub-dust change that is added to the fee "
         "(< dust limit, fee still <= budget) is modelled as AbsorbDust and bounded by PubFeeExact",
         "rates <= 2*10^6 sat/kw, budgets <= 1900 sat/wu (TLC 32-bit integers; arithmetic restated to stay below 2^31)",
-        "aux sweeper (extra outputs/budget) and locktimes are not exercised; at most one input with unconfirmed-parent "
+        "locktimes are not exercised; retry histories: inputs of one deadline (one set per round), no required outputs, no "
+        "wallet top-ups, at most one third-party spend per history, no new inputs arriving mid-way; at most one input with unconfirmed-parent "
         "info per request (anchor sweeps are exclusive groups); all inputs of a request carry the same deadline "
         "(inputs without a deadline get theirs in handleNewInput, which is not driven)",
         "1 sat/vb = 250 sat/kw (chainfee.SatPerVByte.FeePerKWeight) is the unit conversion the spec states for "
